@@ -867,6 +867,29 @@ def svrp_technician_counter(ctx: Ctx):
         why = (f"no skipped iteration: {not jumps}; one unconditional `{ctr} += 1` per depot visit: {len(incs) == 1 and not nested_incs}; the rate written before it is tech_costs[{ctr}]: {uses_ctr and order_ok}; "
                f"restart at 0 for a new row: {bool(resets)}")
     ctx.ob("C03.g", "SVRPEnv._get_reward:technician-per-route", ok, fi.loc, why, construct="SVRPEnv._get_reward:technician-counter")
+    # switching to the next batch row: the route still open in the row being LEFT is charged first (`costs[row, start:] = rate`),
+    # only then the row variable moves on -- and the same tail fill follows the loop for the last row
+    ok2, why2 = False, "row switch not found"
+    if len(loops) == 1:
+        lp = loops[0]
+        tgt = lp.target.id if isinstance(lp.target, ast.Name) else None
+        for blk in [n for n in lp.body if isinstance(n, ast.If)]:
+            moves = [(i, st) for i, st in enumerate(blk.body) if isinstance(st, ast.Assign) and len(st.targets) == 1 and isinstance(st.targets[0], ast.Name)
+                     and isinstance(st.value, ast.Subscript) and isinstance(st.value.value, ast.Name) and st.value.value.id == tgt]
+            if len(moves) != 1:
+                continue
+            mi, mv = moves[0]
+            row = mv.targets[0].id
+            fills = [i for i, st in enumerate(blk.body) if isinstance(st, ast.Assign) and isinstance(st.targets[0], ast.Subscript)
+                     and any(isinstance(x, ast.Name) and x.id == row for x in ast.walk(st.targets[0].slice)) and "tech_costs" in ast.unparse(st.value)]
+            idx_lp = fi.node.body.index(lp) if lp in fi.node.body else None
+            after = [st for st in (fi.node.body[idx_lp + 1:] if idx_lp is not None else []) if isinstance(st, ast.Assign) and isinstance(st.targets[0], ast.Subscript)
+                     and any(isinstance(x, ast.Name) and x.id == row for x in ast.walk(st.targets[0].slice)) and "tech_costs" in ast.unparse(st.value)]
+            ok2 = len(fills) == 1 and fills[0] < mi and len(after) == 1
+            why2 = (f"on a row switch the open route of the row being left is charged before `{row}` moves on: {len(fills) == 1 and fills[0] < mi}; "
+                    f"tail fill after the loop for the last row: {len(after) == 1}")
+    ctx.ob("C03.g", "SVRPEnv._get_reward:last-route-of-each-row", ok2, fi.loc, why2 + ("" if ok2 else " -- the last route of a row is charged to another row (or not at all): the reward depends on the batch position"),
+           construct="SVRPEnv._get_reward:row-switch-order")
 
 
 def flp_min_axis(ctx: Ctx):
